@@ -38,8 +38,10 @@ def PyFloat.isFinite : PyFloat → Bool | .fin _ => true | _ => false
 
 /-- `math.isfinite(x)` with the repair of finding F8: a Python int that cannot be converted to a float (`float(x)` raises
 OverflowError from `2**1024 - 2**970` on, where rounding to nearest reaches `2**1024`) is not a finite grid bound -/
+def floatIntBound : Nat := 2 ^ 1024 - 2 ^ 970
+
 def PyVal.finiteAsFloat : PyVal → Bool
-  | .int i => decide (i.natAbs < 2 ^ 1024 - 2 ^ 970)
+  | .int i => decide (i.natAbs < floatIntBound)
   | .bool _ => true
   | .float f => f.isFinite
   | _ => false
